@@ -136,6 +136,11 @@ fn check_with(c: &RedirCase, obs: &mut Obs, ask: &dyn Fn(&adblock::request::Requ
         if spec.redirect.len() > 1 {
             obs.label("priority-tie");
         }
+        // ties leave the choice free, but the choice is a function of rules and request
+        let again = ask(&req);
+        if again.redirect != got.redirect {
+            return Err(format!("request {:?}{}: the same query gave redirect {:?} and then {:?}", r, how, got.redirect, again.redirect));
+        }
         if !spec.redirect.contains(&got.redirect) {
             return Err(format!(
                 "request {:?}{}: redirect {:?} is not one of the acceptable answers {:?} (matching redirect rules: {:?})",
@@ -165,7 +170,7 @@ pub fn decode(t: &mut Tape) -> RedirCase {
     for _ in 0..(1 + t.pick(8)) {
         let p = t.choose(&pats);
         let name = t.choose(NAMES);
-        let prio = t.choose(&["", "", ":0", ":1", ":10", ":10", ":-5", ":+3", ":99999999999", ":abc", ":", ":1:2"]);
+        let prio = t.choose(&["", "", ":0", ":1", ":10", ":10", ":-5", ":+3", ":99999999999", ":abc", ":", ":1:2", ":-2147483648", ":2147483647", ":-2147483649", ":-0", ":007"]);
         let key = if t.chance(1, 2) { "redirect" } else { "redirect-rule" };
         let mut opts = vec![format!("{}={}{}", key, name, prio)];
         if t.chance(1, 5) {
@@ -208,7 +213,7 @@ pub fn decode(t: &mut Tape) -> RedirCase {
 }
 
 pub fn check(ctx: &mut Ctx) {
-    ctx.rule = "1-8 redirect / redirect-rule / @@..$redirect[-rule] rules on 11 overlapping patterns with priority suffixes (none, 0, equal, negative, +n, overflowing, :abc, trailing ':', double ':'), optional extra options, plus plain/exception/important rules; resource stores of 0-6 resources (names and aliases from a pool of 10 so clashes happen, all 12 mime types + template, permission 0 / non-zero, invalid base64); 1-5 requests; in half of the cases only a prefix of the store is loaded at first and the remaining resources are added one at a time with add_resource(), all requests being re-checked after each; finally the same rules are added one at a time to a Blocker (add_filter) and checked against the full store. Oracle: candidates = matching non-exception redirect rules (per-rule matcher) whose resource name is not named by a matching redirect exception; winners = maximal priority; acceptable = data URL of each winner under an independent resource-store model (first add wins, validation, redirectable kind, permission 0). Non-trivial = >= 2 candidates with different priorities, or an exception present beside >= 2 candidates.".into();
+    ctx.rule = "1-8 redirect / redirect-rule / @@..$redirect[-rule] rules on 11 overlapping patterns with priority suffixes (none, 0, equal, negative, +n, i32::MIN, i32::MAX, overflowing, :abc, trailing ':', double ':'), optional extra options, plus plain/exception/important rules; resource stores of 0-6 resources (names and aliases from a pool of 10 so clashes happen, all 12 mime types + template, permission 0 / non-zero, invalid base64); 1-5 requests; in half of the cases only a prefix of the store is loaded at first and the remaining resources are added one at a time with add_resource(), all requests being re-checked after each; finally the same rules are added one at a time to a Blocker (add_filter) and checked against the full store. Oracle: candidates = matching non-exception redirect rules (per-rule matcher) whose resource name is not named by a matching redirect exception; winners = maximal priority; acceptable = data URL of each winner under an independent resource-store model (first add wins, validation, redirectable kind, permission 0). Non-trivial = >= 2 candidates with different priorities, or an exception present beside >= 2 candidates.".into();
     ctx.assumptions = vec!["which rules match is decided by NetworkFilter::matches (C02/C03 check that); priority ties leave the choice free".into()];
     let n = ctx.tier.pick(600_000, 5_000_000);
     drive(ctx, "redirect", n, 300, &decode, &check_case);
